@@ -376,6 +376,41 @@ def check_gradient(ctx, db):
         ctx.check(p is not None and g is not None and A.equal(dp, g), 'R-DERIV', 'SubPath::gradient/%s' % kind, ag[kind][1].loc(), 'd/du of the %s position is identically the %s gradient (polynomial identity over sin/cos atoms)' % (kind, kind),
                   'the %s gradient is not the derivative of the %s position: d(eval)/du = %s, gradient = %s' % (kind, kind, A.render(dp)[:300], A.render(g)[:300]))
     ctx.require('R-DERIV section kinds', n, 4)
+    # Parametric sections without an analytic gradient: a difference quotient (f(b) - f(a)) / d is the slope of the chord only
+    # with d = b - a, also where a or b was clamped to the ends of the section
+    from .. import linear
+    nq = 0
+    for x in (y for s_ in ag.get('Parametric', ([], None))[0] for y in s_.walk()):
+        if x.k not in ('CXXOperatorCallExpr', 'BinaryOperator') or x.op != '/':
+            continue
+        ops_ = x.args if x.k == 'CXXOperatorCallExpr' else [x.child('lhs'), x.child('rhs')]
+        if len(ops_) != 2:
+            continue
+
+        def peel(e):
+            e = _strip_casts(e)
+            while e is not None and e.k in ('ParenExpr', 'CXXConstructExpr', 'MaterializeTemporaryExpr', 'CXXBindTemporaryExpr', 'ExprWithCleanups') and len([c for c in e.c if c is not None]) == 1:
+                e = _strip_casts([c for c in e.c if c is not None][0])
+            if e is not None and e.k == 'DeclRefExpr' and e.dk == 'local':
+                rd = linear.reaching_def(gr, lvalue_key(e), x)
+                if rd is not None and rd[1] is not None:
+                    return peel(rd[1])
+            return e
+        num = peel(ops_[0])
+        if num is None or num.k not in ('CXXOperatorCallExpr', 'BinaryOperator') or num.op != '-':
+            continue
+        terms = [peel(t) for t in (num.args if num.k == 'CXXOperatorCallExpr' else [num.child('lhs'), num.child('rhs')])]
+        if len(terms) != 2 or any(t is None or t.k != 'CallExpr' or 'path_function' not in t.text() or not t.args for t in terms):
+            continue
+        nq += 1
+        want = linear.lin_sub(linear.lin_of(gr, terms[0].args[0], x), linear.lin_of(gr, terms[1].args[0], x))
+        got = linear.lin_of(gr, ops_[1], x)
+        clean = lambda d_: {k_: v_ for k_, v_ in (d_ or {}).items() if v_ != 0}
+        ctx.check(got is not None and clean(got) == clean(want), 'R-DERIV', 'SubPath::gradient/Parametric-difference-quotient', x.loc(),
+                  'the numerical gradient divides f(b) - f(a) by b - a (the evaluation points themselves, also when clamped to the section)',
+                  'the numerical gradient divides f(%s) - f(%s) by `%s`, which is not their distance: where an evaluation point is clamped to the end of the section the quotient is not the slope of the chord'
+                  % (norm(terms[0].args[0].text()), norm(terms[1].args[0].text()), norm(ops_[1].text())[:60]))
+    ctx.require('R-DERIV difference quotients', nq, 1)
     # transform: eval applies the affine map, gradient its linear part
     def tail(f, sw, var):
         body = [s_ for s_ in f.body.c if s_ is not None]
